@@ -507,5 +507,13 @@ pub fn check(tier: &str) -> i32 {
     rep.require("search-start-stop-sequences", "channels_checked");
     rep.require("search-start-stop-sequences", "search_ends_checked");
     rep.require("search-start-stop-sequences", "metrics_after_stop_checked");
+    let fc = FnPart {
+        name: "shutdown-with-a-slow-client".into(),
+        rule: "as in C14: a browse and a hostname search whose client is behind with reading (0 .. 12 events queued on channels of capacity 10), then shutdown; SearchStopped must still be the last event on every channel".into(),
+        n: 6,
+        describe: Box::new(|i| format!("k = {}", [0, 3, 8, 9, 10, 12][i as usize])),
+        run: Box::new(|i, tr| crate::c14::run_full_channel("C13", [0, 3, 8, 9, 10, 12][i as usize], tr)),
+    };
+    rep.run_part(&fc, Duration::from_secs(120));
     rep.finish()
 }
